@@ -302,6 +302,7 @@ def _check_costs(ctx, kind, fn, A, n, B, seed):
 
 
 def run_transform(ctx):
+    torch.set_float32_matmul_precision("highest")
     reps = ctx.budget(6, 40)
     _check_transform_direct(ctx)
     for rep in range(reps):
@@ -320,6 +321,25 @@ def run_transform(ctx):
             _check_costs(ctx, kind, "dihedral8", 8, ctx.rng.choice([3, 5, 7]), ctx.rng.choice([1, 2, 3]), 0)
             _check_costs(ctx, kind, "symmetric", ctx.rng.choice([2, 3, 8]), ctx.rng.choice([3, 5, 7]),
                          ctx.rng.choice([1, 2, 3]), ctx.rng.randrange(1 << 30))
+    # object reuse: ONE StateAugmentation object called on batch 1, a different batch 2, batch 1 again must give what fresh
+    # objects give (same torch seed)
+    from rl4co.data.transforms import StateAugmentation as _SA
+    for fn, A in (("dihedral8", 8), ("symmetric", 3)):
+        obj = _SA(num_augment=A, augment_fn=fn)
+        b1, b2 = ac.gen_rows(ctx.rng, 2, 4), ac.gen_rows(ctx.rng, 3, 4)
+        for call_no, rws in enumerate((b1, b2, b1)):
+            sd = ctx.rng.randrange(1 << 30)
+            td = TensorDict({"locs": ac.rows_tensor(rws)}, batch_size=[len(rws)])
+            torch.manual_seed(sd)
+            got = obj(td.clone())["locs"]
+            torch.manual_seed(sd)
+            fresh = _SA(num_augment=A, augment_fn=fn)(td.clone())["locs"]
+            ctx.case(("aug-reuse", fn, call_no, sd))
+            if got.shape != fresh.shape or not bool((got == fresh).all()):
+                ctx.violation("augmentation.result_depends_on_call_history",
+                              f"StateAugmentation({fn}) object: call {call_no + 1} differs from a fresh object on the same batch",
+                              {"fn": fn, "A": A, "call_number": call_no + 1, "rows": rws, "torch_seed": sd})
+    ctx.count("StateAugmentation objects reused over three calls", 2)
     # dihedral8 refuses any other number of copies (scope of the claim: num_augment = 8)
     from rl4co.data.transforms import StateAugmentation
     try:
@@ -345,6 +365,7 @@ def _exists(rel):
 C15_ISO = "Rl4co/Props/C15/AugIsometry.lean"
 C15_EVAL = "Rl4co/Props/C15/AugEval.lean"
 C15_NORM = "Rl4co/Props/C15/AugNormalize.lean"
+C15_HIST = "Rl4co/Props/C15/AugHistory.lean"
 
 register(Unit(
     "C15", "aug_transform", run_transform, drivers=["drv_aug"],
@@ -454,9 +475,12 @@ def _make_stub(n):
     return Stub().eval()
 
 
+ENVN = ["tsp", "cvrp", "op"]
+
+
 def _strip(kind, a):
     a = list(a)
-    if kind == 1:
+    if kind >= 1:
         while a and a[-1] == 0:
             a.pop()
     return a
@@ -466,7 +490,7 @@ def _eval_once(ctx, env, kind, insts, policy, pname, method, nb, A, samples, sol
     from rl4co.data.dataset import TensorDictDataset
     from rl4co.tasks.eval import evaluate_policy
 
-    M, n = len(insts), (len(insts[0]["pts"]) - kind)
+    M, n = len(insts), (len(insts[0]["pts"]) - (0 if kind == 0 else 1))
     mcode, uses_aug, uses_ms = METHODS[method]
     S = n if uses_ms else (samples if method == "sampling" else 1)
     Aeff = (8 if method.endswith("dihedral_8") else A) if uses_aug else 1
@@ -477,7 +501,7 @@ def _eval_once(ctx, env, kind, insts, policy, pname, method, nb, A, samples, sol
     if method == "sampling":
         kw["samples"] = samples
     seed = ctx.rng.randrange(1 << 30)
-    witness = {"env": ["tsp", "cvrp"][kind], "policy": pname, "method": method, "batch_size": nb, "num_augment": Aeff,
+    witness = {"env": ENVN[kind], "policy": pname, "method": method, "batch_size": nb, "num_augment": Aeff,
                "num_starts_or_samples": S, "torch_seed": seed, "instances": insts}
     rec = _make_rec(policy)
     ds = TensorDictDataset(ac.to_td(insts))
@@ -490,7 +514,7 @@ def _eval_once(ctx, env, kind, insts, policy, pname, method, nb, A, samples, sol
         ctx.violation("eval.crash", f"evaluate_policy(method={method}) raises {type(e).__name__}: {str(e)[:120]}", witness)
         return
     rewards, actions = out["rewards"].flatten(), out["actions"].reshape(out["actions"].shape[0], -1).tolist()
-    ctx.count(f"eval {['tsp', 'cvrp'][kind]} {pname} {method}")
+    ctx.count(f"eval {ENVN[kind]} {pname} {method}")
     ctx.count("batch size divides dataset" if M % nb == 0 else "batch size does not divide dataset")
     if nb == 1:
         ctx.count("loader batch size 1")
@@ -554,6 +578,11 @@ def _eval_once(ctx, env, kind, insts, policy, pname, method, nb, A, samples, sol
     best, ret_obj, cand_of = {}, {}, {}
     for (tag, i, k), rp in zip(idx, creps):
         obj = int(parse_fields(rp)["obj"])
+        if tag == "ret" and parse_fields(rp).get("feas") == "0":
+            ctx.violation("eval.returned_actions_infeasible",
+                          f"{method}: the actions returned for instance {i} are not a feasible solution of the ORIGINAL instance "
+                          "(Lean Spec: a customer twice, or the length budget exceeded)",
+                          {"instance_index": i, "returned_actions": actions[i], **witness})
         if tag == "ret":
             ret_obj[i] = obj
         else:
@@ -587,7 +616,7 @@ def _eval_once(ctx, env, kind, insts, policy, pname, method, nb, A, samples, sol
         if len({o for _, o in cand_of[i]}) > 1:
             ctx.count("instances whose candidates have different costs")
     if K > 1 and M >= 2:
-        ctx.sample({"case": "evaluate_policy", "env": ["tsp", "cvrp"][kind], "policy": pname, "method": method, "dataset": M,
+        ctx.sample({"case": "evaluate_policy", "env": ENVN[kind], "policy": pname, "method": method, "dataset": M,
                     "loader_batches": sizes, "K candidates/instance": K, "instance 1 reported reward (ticks)": rew_ticks[1],
                     "objective of returned actions on the ORIGINAL instance": ret_obj[1], "returned actions": actions[1],
                     "costs of its candidates (copy/start index, ticks)": cand_of[1][:8]}, cap=3)
@@ -614,23 +643,204 @@ def _eval_once(ctx, env, kind, insts, policy, pname, method, nb, A, samples, sol
             ctx.disagreement("aug: policy is not deterministic on a recorded batch (hypothesis Deterministic π)", witness)
 
 
+def _eval_float_envs(ctx):
+    """generic (float) stream: evaluators on envs whose FEASIBLE FIRST MOVES DIFFER per instance (length budgets, time windows,
+    skills, mixed MTVRP variants), datasets whose per-instance parameters differ, loader batches of >= 2 instances and
+    samples >= 2.  Judged by the real env on the ORIGINAL instances one at a time (its checker included): the reported
+    reward is the reward of the returned actions, and the maximum over that instance's recorded candidates."""
+    import aug_zoo as zoo
+    from rl4co.data.dataset import TensorDictDataset
+    from rl4co.envs import get_env
+    from rl4co.tasks.eval import evaluate_policy
+
+    todo = [("op", ["sampling", "greedy", "augment"]), ("svrp", ["sampling", "greedy"])]
+    # (CVRPTW is left out: on generated instances with max_time != default its mask admits rollouts that its own checker rejects
+    #  — "vehicle cannot perform service and get back to depot in time" — an env-level matter of C01/C06, not of the evaluators)
+    # (MTVRP cannot go through evaluate_policy at all: the evaluators call the policy WITHOUT the env, the policy then builds
+    #  `get_env("mtvrp")` with default arguments, whose generator asserts "Cannot use subsample if variant_preset is not specified")
+    if ctx.tier != "thorough" and not ctx.searching:
+        todo = [(e, ms[:2] if e == "op" else ms[:1]) for e, ms in todo]
+    for ename, methods in todo:
+        try:
+            env = get_env(ename, generator_params=zoo.ENV_PARAMS[ename])
+            variants = zoo.ENV_VARIANTS.get(ename, [{}])[:3]
+            torch.manual_seed(ctx.rng.randrange(1 << 30))
+            data = torch.cat([get_env(ename, generator_params={**zoo.ENV_PARAMS[ename], **v}).generator(batch_size=[2]) for v in variants], 0)
+            order = list(range(data.batch_size[0]))
+            ctx.rng.shuffle(order)
+            data = data[order]
+            pol = zoo._am(ename).eval()
+        except Exception as e:
+            ctx.note(f"float-stream eval unavailable on {ename}: {type(e).__name__}: {str(e)[:80]}")
+            continue
+        M = data.batch_size[0]
+        singles = [env.reset(data[i:i + 1]) for i in range(M)]
+
+        def solo_reward(i, row):
+            with ac.quiet():
+                return float(env.get_reward(singles[i], torch.tensor([row]))[0])
+
+        for method in methods:
+            for nb in (2, 4):
+                samples = ctx.rng.choice([2, 3])
+                kw = {"samples": samples} if method == "sampling" else ({"num_augment": 2} if method == "augment" else {})
+                seed = ctx.rng.randrange(1 << 30)
+                witness = {"env": ename, "policy": "am", "method": method, "batch_size": nb, "dataset": M, "torch_seed": seed, **kw}
+                rec = _make_rec(pol)
+                ctx.case(("float", ename, method, nb, seed))
+                ctx.count(f"eval(float) {ename} {method} batch={nb}")
+                try:
+                    torch.manual_seed(seed)
+                    with ac.quiet():
+                        out = evaluate_policy(env, rec, TensorDictDataset(data), method=method, batch_size=nb, auto_batch_size=False, **kw)
+                except Exception as e:
+                    ctx.violation("eval.crash", f"evaluate_policy(method={method}) on {ename} raises {type(e).__name__}: {str(e)[:120]}", witness)
+                    continue
+                rewards = out["rewards"].flatten().tolist()
+                actions = out["actions"].reshape(out["actions"].shape[0], -1).tolist()
+                if len(rewards) != M:
+                    ctx.violation("eval.wrong_length", "evaluate_policy returned a different number of results than instances", witness)
+                    continue
+                off = 0
+                for c in rec.calls:
+                    rows = c["cand"].tolist()
+                    Bj = min(nb, M - off)
+                    K = len(rows) // Bj
+                    for b in range(Bj):
+                        i = off + b
+                        tol = 1e-5 * max(1.0, abs(rewards[i]))
+                        try:
+                            own = solo_reward(i, actions[i])
+                        except Exception as e:
+                            ctx.violation("eval.returned_actions_rejected_by_env",
+                                          f"{method} on {ename}: the env rejects the actions returned for instance {i} on the original instance "
+                                          f"({type(e).__name__}: {str(e)[:60]})", {"instance_index": i, "returned_actions": actions[i], **witness})
+                            continue
+                        if abs(own - rewards[i]) > tol:
+                            ctx.violation("eval.reported_ne_env_reward_of_returned_actions",
+                                          f"{method} on {ename}: reported {rewards[i]} but the returned actions are worth {own} on the original instance",
+                                          {"instance_index": i, "returned_actions": actions[i], **witness})
+                        best, bad = None, 0
+                        for k in range(K):
+                            try:
+                                v = solo_reward(i, rows[k * Bj + b])
+                                best = v if best is None else max(best, v)
+                            except Exception:
+                                bad += 1
+                        if bad:
+                            ctx.violation("eval.candidate_infeasible_for_its_instance",
+                                          f"{method} on {ename}: {bad} of the {K} candidate rollouts of instance {i} are rejected by the env on that instance",
+                                          {"instance_index": i, **witness})
+                        elif best is not None and abs(best - rewards[i]) > tol:
+                            ctx.violation("eval.reported_ne_max_over_candidates",
+                                          f"{method} on {ename}: reported {rewards[i]}, best candidate of the instance {best}",
+                                          {"instance_index": i, **witness})
+                    off += Bj
+
+
+def _make_env(kind, n):
+    from rl4co.envs import CVRPEnv, OPEnv, TSPEnv
+
+    return [TSPEnv, CVRPEnv, OPEnv][kind](generator_params=dict(num_loc=n))
+
+
+def _make_insts(ctx, kind, n, M):
+    gen = [ac.tsp_instance, ac.cvrp_instance, ac.op_instance][kind]
+    return [gen(ctx.rng, n) for _ in range(M)]
+
+
+def _check_object_reuse(ctx, kind, n, pol):
+    """every evaluator OBJECT is called three times (dataset 1, a different and longer dataset 2, dataset 1 again);
+    each call must return what a FRESH object returns for that dataset (same torch seed), with one row per instance and
+    the reported reward of row i being the Lean objective of row i's actions on instance i of THAT dataset"""
+    from torch.utils.data import DataLoader
+
+    from rl4co.data.dataset import TensorDictDataset
+    from rl4co.tasks.eval import (AugmentationEval, GreedyEval, GreedyMultiStartAugmentEval, GreedyMultiStartEval,
+                                  SamplingEval)
+
+    env = _make_env(kind, n)
+    makers = {
+        "GreedyEval": lambda: GreedyEval(env, progress=False),
+        "AugmentationEval(dihedral8)": lambda: AugmentationEval(env, num_augment=8, force_dihedral_8=True, progress=False),
+        "AugmentationEval(symmetric,3)": lambda: AugmentationEval(env, num_augment=3, progress=False),
+        "SamplingEval(3)": lambda: SamplingEval(env, samples=3, progress=False),
+        "GreedyMultiStartEval": lambda: GreedyMultiStartEval(env, num_starts=n, progress=False),
+        "GreedyMultiStartAugmentEval(2)": lambda: GreedyMultiStartAugmentEval(env, num_starts=n, num_augment=2, progress=False),
+    }
+    d1, d2 = _make_insts(ctx, kind, n, 3), _make_insts(ctx, kind, n, 5)
+
+    def loader(insts, nb):
+        ds = TensorDictDataset(ac.to_td(insts))
+        return DataLoader(ds, batch_size=nb, shuffle=False, num_workers=0, collate_fn=ds.collate_fn)
+
+    for name, mk in makers.items():
+        try:
+            ev = mk()
+        except Exception as e:
+            ctx.note(f"evaluator {name} unavailable on {ENVN[kind]}: {type(e).__name__}")
+            continue
+        history = []
+        for call_no, (insts, nb) in enumerate([(d1, 2), (d2, 2), (d1, 3)]):
+            seed = ctx.rng.randrange(1 << 30)
+            witness = {"evaluator": name, "env": ENVN[kind], "call_number": call_no + 1,
+                       "datasets_sizes_so_far": history + [len(insts)], "torch_seed": seed}
+            try:
+                torch.manual_seed(seed)
+                with ac.quiet():
+                    got = ev(pol, loader(insts, nb))
+                torch.manual_seed(seed)
+                with ac.quiet():
+                    fresh = mk()(pol, loader(insts, nb))
+            except Exception as e:
+                ctx.violation("eval.crash", f"{name}: call {call_no + 1} on the same evaluator object raises {type(e).__name__}: {str(e)[:100]}", witness)
+                break
+            history.append(len(insts))
+            ctx.case(("reuse", name, kind, call_no, seed))
+            ctx.count(f"evaluator object reused: call {call_no + 1}")
+            r, a = got["rewards"].flatten().tolist(), got["actions"].reshape(got["actions"].shape[0], -1).tolist()
+            fr, fa = fresh["rewards"].flatten().tolist(), fresh["actions"].reshape(fresh["actions"].shape[0], -1).tolist()
+            if len(r) != len(insts) or len(a) != len(insts) or r != fr or a != fa \
+                    or abs(float(got["avg_reward"]) - float(fresh["avg_reward"])) > 1e-6:
+                ctx.violation("eval.result_depends_on_call_history",
+                              f"{name}: call {call_no + 1} on a reused evaluator object differs from a fresh evaluator on the same dataset "
+                              f"({len(r)} rows returned for {len(insts)} instances)",
+                              {"rows_returned": len(r), "instances": len(insts), "rewards_reused": r[:8], "rewards_fresh": fr[:8], **witness})
+                continue
+            reps = ctx.driver.ask_many([ac.cost_line(i, row) for i, row in zip(insts, a)])
+            for k, rp in enumerate(reps):
+                if rl.ticks(r[k]) != -int(parse_fields(rp)["obj"]):
+                    ctx.violation("eval.reported_ne_cost_of_returned_actions",
+                                  f"{name} (reused object, call {call_no + 1}): reported reward of instance {k} is not the objective of the "
+                                  "returned actions on that instance", {"instance_index": k, **witness})
+        # the model's `callSeq` on the same history (results = per-instance rewards, one dummy action each)
+        secs = " | ".join(f"{nb} " + " ".join(f"{k} 0" for k in range(len(insts))) for insts, nb in [(d1, 2), (d2, 2), (d1, 3)])
+        f = parse_fields(ctx.driver.ask(f"aug.callseq 1 | {secs}"))
+        if f.get("n") != str(len(d1)) or f.get("listsLocal") != "1":
+            ctx.disagreement("aug: evaluator-object model: last call of a history returns more than its own dataset", {"reply": f})
+
+
 def run_eval(ctx):
-    from rl4co.envs import CVRPEnv, TSPEnv
     from rl4co.models.zoo.am import AttentionModelPolicy
 
+    torch.set_float32_matmul_precision("highest")
     rounds = ctx.budget(2, 12)
     for rnd in range(rounds):
-        for kind in (0, 1):
+        for kind in (0, 1, 2):
+            if kind == 2 and rnd >= max(1, rounds // 2):
+                continue
             n = ctx.rng.choice([4, 5, 6])
             M = ctx.rng.choice([3, 4, 5, 6, 7])
-            env = (TSPEnv if kind == 0 else CVRPEnv)(generator_params=dict(num_loc=n))
-            insts = [(ac.tsp_instance if kind == 0 else ac.cvrp_instance)(ctx.rng, n) for _ in range(M)]
+            env = _make_env(kind, n)
+            insts = _make_insts(ctx, kind, n, M)
             if ctx.rng.random() < 0.5 and M >= 2:
                 insts[-1] = insts[0]  # duplicated instance in the dataset
             torch.manual_seed(ctx.rng.randrange(1 << 30))
             am = AttentionModelPolicy(env_name=env.name, embed_dim=16, num_encoder_layers=1, num_heads=2,
                                       feedforward_hidden=32).eval()
             policies = [("am", am)] + ([("stub", _make_stub(n))] if kind == 0 else [])
+            if rnd == 0:
+                _check_object_reuse(ctx, kind, n, am)
             for pname, pol in policies:
                 solo = []
                 for i in insts:
@@ -642,12 +852,21 @@ def run_eval(ctx):
                 for method in METHODS:
                     if pname == "stub" and method == "sampling":
                         continue
-                    for nb in {ctx.rng.choice(divs), ctx.rng.choice(nondivs), 1 if rnd == 0 else ctx.rng.choice(divs)}:
+                    nbs = {ctx.rng.choice(divs), ctx.rng.choice(nondivs), 1 if rnd == 0 else ctx.rng.choice(divs)}
+                    if method == "sampling":
+                        nbs.add(max(2, M - 1))  # B >= 2 with samples >= 2: forced random starts laid out start-major
+                    for nb in nbs:
                         _eval_once(ctx, env, kind, insts, pol, pname, method, nb, A=ctx.rng.choice([1, 2, 3, 4]),
                                    samples=ctx.rng.choice([2, 3, 5]), solo_greedy=solo)
+    _eval_float_envs(ctx)
 
 
-EVAL_NOTE = ("the policy is an oracle: the evaluators' models receive the candidate action rows the real policy returned (recorded "
+EVAL_NOTE = ("every evaluator object (and StateAugmentation object) is called three times on different datasets and compared with "
+             "fresh objects; OP (per-instance length budgets, some customers out of reach) is part of the exact sweep, and OP / "
+             "SVRP datasets with differing per-instance parameters go through a float-stream sweep judged by the real env one "
+             "instance at a time; MTVRP cannot go through evaluate_policy (the evaluators call the policy without the env and the "
+             "default MTVRPEnv() asserts); matmul precision pinned to 'highest'; "
+             "the policy is an oracle: the evaluators' models receive the candidate action rows the real policy returned (recorded "
              "by a wrapper; for sampling by an identical extra pass under the same RNG state) and reproduce rewards, best-of-k "
              "selection, padding and concatenation; rewards are exact (integral-distance instances, ticks); the property itself is "
              "judged by the Lean objective on the ORIGINAL instances and by brute max over the recorded candidates; "
@@ -655,7 +874,8 @@ EVAL_NOTE = ("the policy is an oracle: the evaluators' models receive the candid
 
 register(Unit(
     "C15", "aug_eval", run_eval, drivers=["drv_aug"],
-    lean_modules=["Rl4co.Props.C15.AugEval"] if _exists(C15_EVAL) else ["Rl4co.Train.Eval"],
+    lean_modules=(["Rl4co.Props.C15.AugEval"] + (["Rl4co.Props.C15.AugHistory"] if _exists(C15_HIST) else []))
+    if _exists(C15_EVAL) else ["Rl4co.Train.Eval"],
     theorems=[
         Theorem("Rl4co.Eval.eval_reports_max", "proved", "AugmentationEval / GreedyMultiStartEval: reported reward of b = reward of the returned actions on the original instance = max over b's K candidates; returned actions are one of b's candidates"),
         Theorem("Rl4co.Eval.eval_reports_max_msaug", "proved", "same for GreedyMultiStartAugmentEval (batchify (A,S) vs the policy's start-major layout: both put instance r % B at row r)"),
@@ -668,7 +888,13 @@ register(Unit(
         Theorem("Rl4co.Eval.evalCall_eq_map", "proved", "per-instance _inner ⇒ rewards of evaluate_policy over ANY batch size = map over the dataset"),
         Theorem("Rl4co.Eval.evalCall_actions", "proved", "… and the returned actions are each instance's own action list followed by zeros only, in dataset order"),
         Theorem("Rl4co.Eval.pad_cost_invariant", "proved", "depot padding does not change the routes objective (D 0 0 = 0)"),
-    ] if _exists(C15_EVAL) else [],
+    ] + ([
+        Theorem("Rl4co.Eval.eval_call_independent_of_history", "proved", "a call on a reused evaluator object returns exactly what a fresh evaluator returns and leaves the object unchanged (rewards_list / actions_list are locals of __call__: extracted)"),
+        Theorem("Rl4co.Eval.callSeq_eq_map", "proved", "for every history of calls on one evaluator object, result k is the fresh result for dataset k"),
+        Theorem("Rl4co.Eval.callObj_attr_counterexample", "proved", "with the lists kept as object attributes the second call returns the first call's rows in front"),
+        Theorem("Rl4co.closedLen_rotate", "proved", "Spec sanity: the closed tour length does not depend on the start of the tour"),
+        Theorem("Rl4co.closedLen_reverse", "proved", "Spec sanity: for a symmetric matrix the closed tour length is the same in both directions"),
+    ] if _exists(C15_HIST) else []) if _exists(C15_EVAL) else [],
     assumptions=[EVAL_NOTE] + ([] if _exists(C15_EVAL) else ["no theorem yet: correspondence + spec oracle only"]),
 ))
 
@@ -815,6 +1041,48 @@ def _compare_row(ctx, tag, solo, batch, p, Bsz, what, witness, S=1, s=0, kp=""):
     return "diff"
 
 
+def _replay_check(ctx, tag, env, pool, idx, bat, kp, label, witness):
+    """the idle-step hypothesis of `batch_reward_eq_solo`, on the real env: the reward a batch row got must be the reward of the
+    SAME actions replayed on that instance alone, stopping when it is done (rows that finished early were stepped on with idle /
+    wait actions while their batch-mates ran).  Independent of the policy, so it also applies to RNG-consuming policies."""
+    acts_all = bat["actions"].tolist()
+    for j, k in enumerate(idx):
+        try:
+            td = pool[k:k + 1].clone()
+            acts = []
+            for a in acts_all[j]:
+                if bool(td["done"].all()):
+                    break
+                td.set("action", torch.tensor([a]))
+                td = env.step(td)["next"]
+                acts.append(a)
+            if not bool(td["done"].all()):
+                ctx.count("solo replay: row not done after its batch actions (skipped)")
+                continue
+            with ac.quiet():
+                r = env.get_reward(td, torch.tensor([acts])).double().flatten()
+        except Exception as e:
+            ctx.count(f"solo replay unavailable ({type(e).__name__})")
+            return
+        rb = bat["reward"][j].double().flatten()
+        if rb.numel() != r.numel():
+            rb = rb[-r.numel():] if rb.numel() > r.numel() else rb
+        ctx.case((tag, "replay", label, j, tuple(acts_all[j])))
+        if len(acts) < len(acts_all[j]):
+            ctx.count("solo replay: row finished earlier than its batch (idle tail exercised)")
+        if rb.numel() == r.numel() and not bool(((rb - r).abs() <= 1e-5 * r.abs().clamp(min=1.0)).all()) and kind_ok(tag):
+            ctx.violation(_key(tag, ("rng-other:" if kp else "") + "reward_differs_from_solo_replay"),
+                          f"{tag}, {label}: the reward of batch row {j} is {rb.tolist()} but the same actions replayed on that instance alone "
+                          f"(stopping when it is done after {len(acts)} of {len(acts_all[j])} steps) give {r.tolist()}",
+                          {"row": j, "actions": acts_all[j], "steps_until_done": len(acts), "reward_in_batch": rb.tolist(),
+                           "reward_solo_replay": r.tolist(), "composition": label, **witness})
+    ctx.count("batch rows replayed solo through the env")
+
+
+def kind_ok(tag):
+    return not tag.startswith("mdam:")  # MDAM returns one reward per decoder path for the actions of the last path only
+
+
 def _loop_model(ctx, tag, pol, env, call, pool, seed, witness):
     """the Lean loop model on the recorded traces: rows decoded alone give T_b and their actions; the model's
     batched loop must make max_b T_b steps and reproduce the batch rows (solo prefix + idle tail)"""
@@ -936,6 +1204,13 @@ def _batch_invariance(ctx, pname, build, ename, multistart, call=None, env_facto
     comps.append(("duplicates B=2", [0, 0], 1))
     comps.append(("duplicates B=3", [0, 0, 0], 2))
     comps.append(("mixed duplicates B=3", [1, 0, 1], 1))
+    # env-side idle-step law on two decoded batches (for every policy, also those that consume the RNG)
+    for ridx in ([1, 2, 0], [3, 0, 4, 5, 6, 7, 8, 1]):
+        try:
+            rb = _decode(pol, env, pool[ridx], call, seed)
+            _replay_check(ctx, tag, env, pool, ridx, rb, kp, f"rows {ridx}", wit0)
+        except Exception as e:
+            ctx.count(f"solo replay unavailable ({type(e).__name__})")
     results = {"same": 0, "tie": 0, "diff": 0, "ll": 0}
     for label, idx, p in comps:
         tdb = pool[idx]
@@ -1043,6 +1318,10 @@ def _check_cache_replication(ctx):
 def _run_zoo(ctx, names):
     import aug_zoo as zoo
 
+    # PRECISION PIN: RL4COTrainer sets torch.set_float32_matmul_precision("medium") process-wide; with reduced-precision
+    # matmuls the rounding unit is ~2^-8 and near-ties flip with the evaluation chunk size (see the unit's assumptions)
+    torch.set_float32_matmul_precision("highest")
+
     if "am" in names:
         _check_cache_replication(ctx)
 
@@ -1075,7 +1354,13 @@ C14_NOTE = ("the Lean theorems cover (a) the decoding LOOP and the REGROUPING (b
             "an instance decoded alone vs at every position of batches of sizes 1,2,3,8 with unrelated / duplicated batch-mates whose "
             "per-instance parameters differ; per-step logits to 1e-4 (+4e-7·|logit| float term), actions / reward exactly unless the top-2 "
             "gap is below the tolerance.  That the decoder keeps no state between calls is covered by the correspondence only (one policy "
-            "object decodes many equal-shaped batches in a row)")
+            "object decodes many equal-shaped batches in a row).  PRECISION: the sweep pins torch.set_float32_matmul_precision('highest'); "
+            "RL4COTrainer's default 'medium' lets CPU matmuls run in bf16, whose rounding unit (2^-8) flips greedy selections with a top-2 "
+            "gap below ~1e-2 depending on the evaluation chunk size — inside the property's clause 'up to float rounding that does "
+            "not flip a selection', documented here, not a violation.  The env-side idle-step law (hypothesis of batch_reward_eq_solo) is "
+            "checked on every policy×env, RNG-consuming policies included, by replaying each batch row's actions on its instance alone.  "
+            "No deterministic bundled policy supports FFSP (MatNetPolicy('ffsp') cannot be constructed, MultiStageFFSPPolicy draws random "
+            "one-hot columns): FFSP is covered through MultiStageFFSPPolicy by that replay check only")
 C14_THEOREMS = [
     Theorem("Rl4co.Eval.batchLoop_rowwise", "proved", "row-wise network ⇒ the batched loop is runN on every row; it stops at the first step where all rows are done"),
     Theorem("Rl4co.Eval.batch_eq_map_solo", "proved", "RowWise π ⇒ greedy decode of a batch = map of the per-row runs (any composition, position, size)"),
@@ -1101,6 +1386,17 @@ if _exists(C14_ROW):
         Theorem("Rl4co.Eval.squeezeAll_not_rowLocal", "proved", "a squeeze that drops the batch dim at B = 1 is not row-local (mTSP context before 182aaab)"),
         Theorem("Rl4co.Eval.configured_norms_rowLocal_in_eval", "proved", "obligation on the extracted Normalization table: no configured kind uses batch statistics in eval mode"),
         Theorem("Rl4co.Eval.layerNorm_dims_exclude_batch", "proved", "obligation: the 'layer' branch reduces over dims (1,2), never the batch dim"),
+    ]
+C14_LAYERS = "Rl4co/Props/C14/AugLayers.lean"
+if _exists(C14_LAYERS):
+    C14_MODULES.append("Rl4co.Props.C14.AugLayers")
+    C14_THEOREMS += [
+        Theorem("Rl4co.Eval.mlp_rowLocal", "proved", "the feed-forward block Linear → activation → Linear is row-local"),
+        Theorem("Rl4co.Eval.amDecoder_rowLocal", "proved", "one AM decoder step (context gather + graph context, dynamic keys/values, masked pointer attention) is row-local"),
+        Theorem("Rl4co.Eval.amPolicyStep_rowLocal", "proved", "encoder (any depth, non-batch-statistics norm) ∘ row-local state ∘ decoder step: a row's logits depend on that row only"),
+        Theorem("Rl4co.Eval.decoderReadsRowZero_not_rowLocal", "proved", "a decoder context that takes a state field from row 0 is not row-local"),
+        Theorem("Rl4co.Eval.batch_dim_reductions_known", "proved", "obligation on the extracted scan: every reduction over dim 0 in the nn modules of the bundled policies is a known one (MVMoE gate)"),
+        Theorem("Rl4co.Eval.forced_train_sites_known", "proved", "obligation: every site forcing training behaviour (dropout without training=, .train()) is a known, guarded one"),
     ]
 if _exists(C14_CACHE):
     C14_MODULES.append("Rl4co.Props.C14.AugCache")
